@@ -76,7 +76,11 @@ def _core(rng, cfg, nt):
         regs['sys']['ttbcr'] = 0
         regs['sys']['ttbr0_64'] = c18.TABLES
         regs['sys']['dacr'] = rng.choice([0x55555555, 0xFFFFFFFF])
-        regs['pc'] = rng.choice([G.CODE, c18.WIN + 0x1000 * rng.randrange(4)]) + 4 * rng.randrange(0, 64)
+        regs['pc'] = rng.choice([G.CODE, c18.WIN + 0x1000 * rng.randrange(4), c18.WIN + 0x1000 * rng.randrange(4)]) + 4 * rng.randrange(0, 64)
+        ptrs = rng.sample(range(13), 5)
+        for i in ptrs:
+            regs['R']['R%dusr' % i] = c18.WIN + 0x1000 * rng.randrange(4) + rng.choice([0x101, 0x202, 0x303, 0x100, 0x3C1, 0x7FE])     # (mostly unaligned) pointers into the window
+        regs['sys']['sctlr'] &= ~(1 << 1 | 1 << 29)              # A=0, AFE=0: unaligned accesses and plain AP checks
     tb = rng.random()
     words = []
     for _ in range(nt):
@@ -97,6 +101,14 @@ def _core(rng, cfg, nt):
             w = G.stream_word(rng, tb)
         words.append(w)
     words = words[:nt]
+    if full:
+        # a third of the words become loads/stores through the window pointers (byte-wise unaligned accesses to pages of every memory type)
+        from sim.asm import A, T
+        for i in range(len(words)):
+            if rng.random() < 0.33:
+                rn, rt, ld, off = rng.choice(ptrs), rng.randrange(0, 13), rng.getrandbits(1), 4 * rng.randrange(0, 8)
+                words[i] = rng.choice([A.ldst(ld, rt, rn, off), A.ldsth('ldrh' if ld else 'strh', rt, rn, off)]) if (regs['cpsr'] >> 5) & 1 == 0 else \
+                    rng.choice([(T.ldr_w if ld else T.str_w)(rt, rn, off), G._t16(T.ldst_imm('ldr' if ld else 'str', rt & 7, rn & 7, off // 4))])
     events = []
     for _ in range(rng.randrange(0, max(1, nt // 20)) if rng.random() > 0.25 else 0):
         k = rng.random()
@@ -109,6 +121,8 @@ def _core(rng, cfg, nt):
             events.append({'tick': t, 'core': 0, 'kind': 'reset'})
         else:
             events.append({'tick': t, 'core': 0, 'kind': 'regime', 'regs': _simple_regime(rng, cfg)})
+    if full:
+        events = [e for e in events if e['kind'] in ('irq', 'fiq')]          # keep the translation regime for the whole run
     events.sort(key=lambda e: e['tick'])
     return {'config': cfg, 'devices': devices, 'regs': regs, 'words': words, 'force': None, 'events': events, 'no_poke': [0x50000] if full else []}
 
